@@ -872,6 +872,14 @@ def apply_proj(tb, base, proj, stack, fn):
                     nm = f.get("name", str(f["i"]))
                     hit = [v for (fname, v) in t[2] if fname == nm]
                     t = hit[0] if hit else ("vfield", t, e["variant"], f.get("name", str(f["i"])))
+                elif isinstance(t, tuple) and t[0] == "call" and e["variant"] == "Continue" and t[2] and \
+                        (t[1].endswith("Try>::branch") or t[1].endswith("Try::branch")):
+                    # `x?`: the Continue payload of branch(x) is the Ok / Some payload of x
+                    inner, vn = t[2][0], ("Some" if "option::Option" in t[1] else "Ok")
+                    if isinstance(inner, tuple) and inner[0] == "agg" and inner[1].endswith("::" + vn) and dict(inner[2]).get("0") is not None:
+                        t = dict(inner[2])["0"]
+                    else:
+                        t = ("vfield", inner, vn, "0")
                 else:
                     t = ("vfield", t, e["variant"], f.get("name", str(f["i"])))
                 i += 1
